@@ -96,4 +96,10 @@ CHECKS = {
             sim_stage(150, 6000),
         ],
     },
+    "C10": {
+        "pkg": "c10", "level": "exploration",
+        "rule": "the recorded state vector is produced, not invented: a DagCase (no step preconditions) is really run on the scripted executor to its end, stopped at a generated trace position, or 'crashed' = cut at the k-th status the agent would have persisted (before the start and at every done-channel hand-over, so vectors contain 'running' and 'not started' nodes); the vector goes through the real persistence encoding (model.FromNodes -> JSON -> StatusFromJSON -> ToNode) and is retried with NewExecutionGraphForRetry + Schedule under generated retry-time outcome scripts, completion schedules, maxActiveRuns and done consumers. Oracle: must-rerun set R = steps recorded failed/canceled/running/not started closed under 'downstream of'; steps outside R have zero executor events and keep their recorded state; steps in R are executed (>=1) unless a dependency blocks them in the retry, and end in the state their retry script dictates; dependency order (C01 oracle) holds; the retry terminates (bounded liveness, 5x confirm on the same vector). Non-trivial: R non-empty and not all steps. Distinct: hash(case, vector, realised retry order).",
+        "assumptions": SIM_ASSUME + ["recorded 'skipped' steps are outside the property's enumeration and are not generated (no step preconditions)", "the agent-level clauses (new request id, parameters, recorded steps after an edit of the file) are checked by the 'agent' stage"],
+        "stages": [sim_stage(1500, 20000, shrinktime="20s")],
+    },
 }
